@@ -20,9 +20,9 @@ def judge (fs : List (List Char)) : String :=
     else if printed == "PANIC".toList then "MODEL\timplementation panicked"
     else
       let specMsg : Option String :=
-        match Wac.Spec.Grammar.verdict src with
+        match Wac.Spec.Grammar.verdictWith Wac.Generated.maxNestingDepth src with
         | .accept d =>
-          match Wac.Spec.Grammar.verdict printed with
+          match Wac.Spec.Grammar.verdictWith Wac.Generated.maxNestingDepth printed with
           | .accept d' =>
             let a := (documentJ d).strip.render
             let b := (documentJ d').strip.render
